@@ -141,20 +141,12 @@ func vC38_pnSnap(c *PNCounter) vC38_pnS {
 	return vC38_pnS{vC38_gcSnap(c.increments), vC38_gcSnap(c.decrements)}
 }
 
-func vC38_pnValue(s vC38_pnS) int64 {
-	var wi, wd uint64
-	for i := 0; i < 3; i++ {
-		wi += s.inc[i]
-		wd += s.dec[i]
-	}
-	return int64(wi) - int64(wd)
-}
-
 // Value() is a function of the per-node state (checked here for ARBITRARY states, not only reachable ones), so the
 // join laws proved on the per-node state in vC38_gcounter / vC38_pncounter carry over to the observable value
 func vC38_counter_value() {
 	var st [2]map[string]uint64
 	var snap [2][3]uint64
+	var sum [2]uint64
 	for h := 0; h < 2; h++ {
 		st[h] = make(map[string]uint64)
 		for i := 0; i < 3; i++ {
@@ -162,13 +154,14 @@ func vC38_counter_value() {
 				v := vNondetUint64("count")
 				st[h][vC38_nodes[i]] = v
 				snap[h][i] = v
+				sum[h] += v
 			}
 		}
 	}
 	g := GCounterFromState(st[0])
-	vAssert(g.Value() == snap[0][0]+snap[0][1]+snap[0][2], "GCounter.Value is the sum of the per-node counts")
+	vAssert(g.Value() == sum[0], "GCounter.Value is the sum of the per-node counts")
 	p := PNCounterFromState(st[0], st[1])
-	vAssert(p.Value() == vC38_pnValue(vC38_pnS{snap[0], snap[1]}), "PNCounter.Value is the sum of increments minus the sum of decrements")
+	vAssert(p.Value() == int64(sum[0])-int64(sum[1]), "PNCounter.Value is the sum of increments minus the sum of decrements")
 	vAssert(vC38_gcSnap(g) == snap[0] && vC38_pnSnap(p) == vC38_pnS{snap[0], snap[1]}, "FromState keeps increments and decrements apart")
 	st[0]["a"] = snap[0][0] + 1
 	vAssert(vC38_gcSnap(g) == snap[0], "FromState copies its argument")
@@ -546,34 +539,43 @@ func vC38_mvWellFormed(s vC38_mvS) bool {
 
 func vC38_mvregister() {
 	rep := vC38_mvBuild(vCase("slots"))
+	part := vCase("part") // the obligations are split over parallel jobs
 	x, y, z := rep[0], rep[1], rep[2]
 	sx, sy, sz := vC38_mvSnap(x), vC38_mvSnap(y), vC38_mvSnap(z)
-	vAssert(vC38_mvWellFormed(sx), "reachable register: at most one entry per node, every dot covered by the clock")
 	xy := x.Merge(y).(*MVRegister)
-	yx := y.Merge(x).(*MVRegister)
-	vAssert(vC38_mvSnap(x) == sx && vC38_mvSnap(y) == sy, "Merge leaves both inputs unchanged")
 	mxy := vC38_mvSnap(xy)
-	vAssert(vC38_mvWellFormed(mxy), "merged register is well formed")
-	vAssert(vC38_mvEq(mxy, vC38_mvSnap(yx)), "merge is commutative (entries as a set, clock)")
-	vAssert(vC38_mvLeq(sx, mxy) && vC38_mvLeq(sy, mxy), "merge is an upper bound of both inputs")
-	for i := 0; i < 4; i++ {
-		if i < sx.n {
-			vAssert(vC38_mvIn(mxy, sx.ents[i]) || (vC38_dominated(sx.ents[i].dot, sy.clock) && !vC38_mvDotIn(sy, sx.ents[i].dot)), "a value is dropped by merge only if the other side has seen and superseded it")
+	if part == 0 {
+		vAssert(vC38_mvWellFormed(sx), "reachable register: at most one entry per node, every dot covered by the clock")
+		yx := y.Merge(x).(*MVRegister)
+		vAssert(vC38_mvSnap(x) == sx && vC38_mvSnap(y) == sy, "Merge leaves both inputs unchanged")
+		vAssert(vC38_mvWellFormed(mxy), "merged register is well formed")
+		vAssert(vC38_mvEq(mxy, vC38_mvSnap(yx)), "merge is commutative (entries as a set, clock)")
+		vAssert(vC38_mvLeq(sx, mxy) && vC38_mvLeq(sy, mxy), "merge is an upper bound of both inputs")
+		for i := 0; i < 4; i++ {
+			if i < sx.n {
+				vAssert(vC38_mvIn(mxy, sx.ents[i]) || (vC38_dominated(sx.ents[i].dot, sy.clock) && !vC38_mvDotIn(sy, sx.ents[i].dot)), "a value is dropped by merge only if the other side has seen and superseded it")
+			}
 		}
 	}
-	l := vC38_mvSnap(xy.Merge(z).(*MVRegister))
-	r := vC38_mvSnap(x.Merge(y.Merge(z)).(*MVRegister))
-	vAssert(vC38_mvEq(l, r), "merge is associative (entries as a set, clock)")
-	vAssert(vC38_mvSnap(z) == sz, "Merge leaves its argument unchanged")
-	vAssert(vC38_mvEq(vC38_mvSnap(x.Merge(x).(*MVRegister)), sx), "merge is idempotent")
-	vAssert(len(x.Values()) == sx.n, "Values returns one value per entry")
-	c := x.Clone().(*MVRegister)
-	vAssert(vC38_mvSnap(c) == sx, "Clone yields an equal register")
-	c.clock["a"] = sx.clock[0] + 1
-	if len(c.entries) > 0 {
-		c.entries[0].dot.counter += 7
+	if part == 1 {
+		l := vC38_mvSnap(xy.Merge(z).(*MVRegister))
+		r := vC38_mvSnap(x.Merge(y.Merge(z)).(*MVRegister))
+		vAssert(vC38_mvEq(l, r), "merge is associative (entries as a set, clock)")
+		vAssert(vC38_mvSnap(z) == sz && vC38_mvSnap(x) == sx && vC38_mvSnap(y) == sy, "Merge leaves its inputs unchanged (nested merges)")
 	}
-	vAssert(vC38_mvSnap(x) == sx, "Clone shares no storage with the original")
+	if part == 2 {
+		vAssert(vC38_mvEq(vC38_mvSnap(x.Merge(x).(*MVRegister)), sx), "merge is idempotent")
+		vAssert(len(x.Values()) == sx.n, "Values returns one value per entry")
+		c := x.Clone().(*MVRegister)
+		vAssert(vC38_mvSnap(c) == sx, "Clone yields an equal register")
+		c.clock["a"] = sx.clock[0] + 1
+		if len(c.entries) > 0 {
+			c.entries[0].dot.counter += 7
+		}
+		vAssert(vC38_mvSnap(x) == sx, "Clone shares no storage with the original")
+		w := x.Set("b", any(5))
+		vAssert(vC38_mvSnap(x) == sx && len(w.entries) == 1, "Set leaves the register it is applied to unchanged")
+	}
 	if mxy.n == 2 {
 		vCover("concurrent-writes-both-kept")
 	}
@@ -764,7 +766,7 @@ func vC38_orset() {
 		a3 := r2.Add("c", vC38_elems[0])
 		vAssert(vC38_osSnap(x) == sx && vC38_osSnap(a1) == s1 && a2 != nil && a3 != nil, "Add and Remove leave the set they are applied to unchanged")
 	}
-	if x.Contains(vC38_elems[0]) && !y.Contains(vC38_elems[0]) && !xy.Contains(vC38_elems[0]) {
+	if x.Contains(vC38_elems[0]) != y.Contains(vC38_elems[0]) && !xy.Contains(vC38_elems[0]) {
 		vCover("observed-remove-wins-over-old-add")
 	}
 	if x.Contains(vC38_elems[0]) && !y.Contains(vC38_elems[0]) && sy.clock[0] > 0 && xy.Contains(vC38_elems[0]) {
@@ -921,7 +923,7 @@ func vC38_ormap() {
 	if ox.has[0] && vC38_omObserve(y).has[0] && oxy.val[0][0] > 0 && oxy.val[0][1] > 0 {
 		vCover("same-key-written-on-two-nodes")
 	}
-	if ox.has[0] && !oxy.has[0] {
+	if (ox.has[0] || vC38_omObserve(y).has[0]) && !oxy.has[0] {
 		vCover("key-removed-by-merge")
 	}
 	vCover("end")
